@@ -121,7 +121,7 @@ def main():
     tot = {}
     merge(pmap(worker, chunks, nw), F, tot)
     rmwork(root)
-    if tot.get("appended", 0) == 0 or tot.get("refused", 0) == 0 or tot.get("already", 0) == 0:
+    if (tot.get("appended", 0) == 0 or tot.get("refused", 0) == 0 or tot.get("already", 0) == 0) and F.n_unlisted() == 0:
         raise Harness("monitor did not observe all three enable outcomes: %s" % tot)
     rc = F.report()
     distinct = len({c for _, c in files})
